@@ -41,8 +41,8 @@ def _rand_epoch(rng):
 
 
 def generate(ctx, rng):
-    n_rand = 2500 if ctx.tier == "quick" else 320000
-    n_wire = 300 if ctx.tier == "quick" else 8000
+    n_rand = 2500 if ctx.tier == "quick" else 1600000
+    n_wire = 300 if ctx.tier == "quick" else 40000
     # exhaustive lengths x boundary ids
     i = 0
     for L in range(256):
@@ -68,13 +68,13 @@ def generate(ctx, rng):
                                     "epoch": _rand_epoch(rng)}
     # the id the client was configured with need not be the id the device puts into its own packets (0 = "unknown" is the
     # command line tool's default): every request must still carry the configured id
-    for j in range(16 if ctx.tier == "quick" else 400):
+    for j in range(16 if ctx.tier == "quick" else 2000):
         yield ("wire-session-foreign-id", j), {"kind": "wire-session", "frame": b"", "id": [0, 0, 1, 2 ** 48 - 1][j % 4], "n": 12, "sseed": rng.getrandbits(32),
                                                "epoch": _rand_epoch(rng), "reply_id": rng.choice([rng.getrandbits(48) | 1, 2 ** 64 - 1, 2 ** 63, 0x5A5A])}
     # a long-running process: more packets than any 16-bit counter holds, all in this process
-    yield ("bulk", 0), {"kind": "bulk", "frame": b"", "id": 1, "n": 70000 if ctx.tier == "quick" else 140000, "sseed": rng.getrandbits(32)}
+    yield ("bulk", 0), {"kind": "bulk", "frame": b"", "id": 1, "n": 70000 if ctx.tier == "quick" else 700000, "sseed": rng.getrandbits(32)}
     # two LAN objects (two devices) working at the same time; one of them has to retransmit
-    for j in range(40 if ctx.tier == "quick" else 2000):
+    for j in range(40 if ctx.tier == "quick" else 10000):
         yield ("pair", j), {"kind": "pair", "frame": b"", "id": 1, "sseed": rng.getrandbits(32), "n": rng.randint(2, 4),
                             "drops": [rng.choice([0, 1, 2]) for _ in range(4)], "offsets": [rng.choice([0.0, 0.3, 0.5, 1.9, 2.1, 2.5]) for _ in range(4)]}
     # boundary response lengths (0, 1, block edges, 255) at every position of a 1-3 response exchange
